@@ -19,6 +19,9 @@ C = {
  "C05": ("proof", B1, "Lean 4 theorems (Props/C05.lean): one canonical PUT per valid value kind, gates, rejections, state frame (cache/calls untouched, at most one PUT), step texts for every numeric step; table obligations by kernel evaluation. Tie: every writable attribute and action method of every class on real objects vs the compiled model; independent oracle.",
          "Modelled rather than verified: descriptor __set__/__get__, converters' to_str, action methods (classified by behavioural probes in the translator). Inputs the property leaves open are informational.",
          "Lean 4 proof (table-driven case analysis) + differential correspondence"),
+ "C09": ("proof", B2, "Lean 4 theorems (Props/C09.lean): exactly once after the cache update, filter, order, unregistered/closed, and C09_mutation_safe for arbitrary re-entrant callback scripts under snapshot delivery (L3 model). Tie: (a) real subunit objects with scripted re-entrant update callbacks vs the compiled model; (b) the real connection and reader thread under the deterministic scheduler with re-entrant message callbacks and a concurrently (un)registering thread, judged by a must/may monitor.",
+         "Modelled rather than verified: subunit/connection delivery loops. Delivery order among callbacks is unspecified; user callbacks do not raise. DetSched shims (threading/queue/time) and the virtual port are trusted harness code.",
+         "Lean 4 proof (induction over the delivery snapshot) + differential correspondence + scheduled real threads with monitor"),
  "C10": ("proof", B1, "Lean 4 theorems (Props/C10.lean): an undecodable value leaves cache, callbacks, sent and liveness unchanged; after any history every cached value has the type of its function; decode is type-correct for every converter. Totality of framing/parsing/handling is by construction of the (total) models. Tie: typed attack on every readable function of every class and byte-level attack (invalid UTF-8, 1 MB lines, malformed YNCA) through the real data_received -> connection callbacks -> subunits, sentinel line after every attack.",
          "Modelled rather than verified: as C02/C03. Reader-thread survival is exercised through the real receive path; the thread itself is covered by the L4 checks. bytes.decode('replace') total (CPython).",
          "Lean 4 proof (invariant by induction on history, mutual induction on converters) + differential correspondence"),
